@@ -277,11 +277,23 @@ def check(P: Project, R: Report) -> None:
     # on the main stream has a WouldBlock edge, and what the router does on it is part of the routing
     main_nowait = [c_ for c_ in incoming_send_calls(P, _stdio.client(P)) if c_.endswith("send_nowait")]
 
+    main_calls = set(incoming_send_calls(P, _stdio.client(P)))
+
     def would_block(node, st, an2):
         from ..paths import calls_in_order
-        return {"anyio.WouldBlock"} if any(call_name(c_) in main_nowait for c_ in calls_in_order(node)) else set()
+        tags = set()
+        for c_ in calls_in_order(node):
+            nm_ = call_name(c_)
+            if nm_ in main_nowait:
+                tags.add("anyio.WouldBlock")
+            elif nm_ not in main_calls and isinstance(c_.func, ast.Attribute) and c_.func.attr in ("send", "send_nowait"):
+                # a side channel (the notification stream, a per-request stream) whose receiving end its owner has closed —
+                # a caller that gave up on its request, an application that stopped listening — is an ordinary history too:
+                # the put raises, and the message must still reach the main stream
+                tags.add("anyio.BrokenResourceError")
+        return tags
 
-    ra, ro = run_paths(rt.node, event_of=ev, fallible_pred=would_block)
+    ra, ro = run_paths(rt.node, event_of=ev, fallible_pred=would_block, mark_handlers=True)
     R.paths += len(ro.ret) + len(ro.normal)
     for st, tag, node in ro.exc:
         R.ob("R4", "a full main stream does not make the router raise", tag != "anyio.WouldBlock", f"{rt.module.rel}:{getattr(node, 'lineno', 0)}", "WouldBlock from the non-blocking put leaves the router")
@@ -295,7 +307,9 @@ def check(P: Project, R: Report) -> None:
         if f"{IDN} is None" in st.lits:
             seen.add("notification")
             maybe = [e for e in st.events if e.startswith("main-maybe:")]
-            R.ob("R4", "notification: offered on the notification stream and delivered on the main stream", mains == [f"main:{mp}"] and notes == [f"notify:{mp}"] and not maybe, rt.where,
+            # (an offer that failed because the application closed its end of the notification stream is still the offer)
+            offer_failed = not notes and any(e.startswith("caught:") and "BrokenResourceError" in e for e in st.events)
+            R.ob("R4", "notification: offered on the notification stream and delivered on the main stream", mains == [f"main:{mp}"] and (notes == [f"notify:{mp}"] or offer_failed) and not maybe, rt.where,
                  f"events {list(st.events)}" + (f": the delivery helper {sorted(helpers)} can return without having delivered (full main stream)" if maybe else ""), sample=f"R4 id None → {list(st.events)}")
         elif f"{IDN} is not None" in st.lits:
             seen.add("response")
